@@ -104,7 +104,10 @@ func Modify(node Node, f func(Node) (Node, bool)) (Node, bool) { //nolint:funlen
 			if !ok {
 				return nil, false
 			}
-			newNode.Parameters[i] = id.(*Identifier)
+			if _, isID := id.(*Identifier); !isID {
+				return nil, false // a parameter was rewritten into something else (e.g. a register): give up.
+			}
+			newNode.Parameters[i] = id
 		}
 		nb, ok := Modify(node.Body, f)
 		if !ok {
@@ -191,7 +194,10 @@ func Modify(node Node, f func(Node) (Node, bool)) (Node, bool) { //nolint:funlen
 			if !ok {
 				return nil, false
 			}
-			newNode.Parameters[i] = id.(*Identifier)
+			if _, isID := id.(*Identifier); !isID {
+				return nil, false // a parameter was rewritten into something else (e.g. a register): give up.
+			}
+			newNode.Parameters[i] = id
 		}
 		nb, ok := Modify(node.Body, f)
 		if !ok {
